@@ -304,6 +304,18 @@ Definition parse_version (tbs : bytes) : option (Z * bytes) :=
     match r' with [] => Some (z, r) | _ => None end
   else Some (0%Z, tbs).
 
+(* issuerUniqueID / subjectUniqueID skipped from version 2 on, extensions read in version 3 only
+   (parser.go:962-1005); [ver] is the encoded version number (0 = v1), [t7] what follows the
+   SubjectPublicKeyInfo *)
+Definition parse_optional_extensions (o : oracles) (ver : Z) (t7 : bytes) : option ext_state :=
+  if (0 <? ver)%Z then
+    olet t8 := skip_optional 129 t7 in
+    olet t9 := skip_optional 130 t8 in
+    if (ver =? 2)%Z && peek 163 t9 then
+      olet (x, _) := cb_read 163 t9 in parse_extensions o x
+    else Some state0
+  else Some state0.
+
 Definition parse_certificate_der (o : oracles) (der : bytes) : option cert_fields :=
   olet (cert, trailing) := cb_read 48 der in
   match trailing with
@@ -328,13 +340,7 @@ Definition parse_certificate_der (o : oracles) (der : bytes) : option cert_field
       olet sub_text := o_name o sub in
       olet (pk, t7) := cb_read 48 t6 in
       olet key := o_spki o pk in
-      olet st := (if (0 <? ver)%Z then
-                    olet t8 := skip_optional 129 t7 in
-                    olet t9 := skip_optional 130 t8 in
-                    if (ver =? 2)%Z && peek 163 t9 then
-                      olet (x, _) := cb_read 163 t9 in parse_extensions o x
-                    else Some state0
-                  else Some state0) in
+      olet st := parse_optional_extensions o ver t7 in
       olet (sigbits, _) := cb_read 3 after_sig in
       olet _ := cb_bits sigbits in
       Some {| f_version := ver + 1;
